@@ -21,7 +21,7 @@ def make_post(tier):
         cases = r.corpus_cases(tier, rnd, 1 if tier == 'quick' else 4)
         obs = pool.run_cases(cases, init_name='datetime', batch=40, timeout=20.0, progress=PROP + '/triples')
         g, st = flow.generate(work, 'Gen_Ranges', 'Gen_Ranges.cfg')
-        rcases = [{'api': 'datetime', 'text': s_['c']['text'], 'culture': s_['c']['culture'], 'ref': s_['c']['ref'], 'src': 'generated:Gen_Ranges'} for s_ in st]
+        rcases = [{'api': 'datetime', 'text': d.unescape(s_['c']['text']), 'culture': s_['c']['culture'], 'ref': s_['c']['ref'], 'src': 'generated:Gen_Ranges'} for s_ in st]
         rcases.sort(key=lambda c: (c['text'], c['ref']))
         robs = pool.run_cases(rcases, init_name='datetime', batch=40, timeout=20.0)
         allc = cases + rcases + [{'api': 'datetime', 'text': c['text'], 'culture': c['culture'], 'ref': c['ref'], 'src': 'generated'} for c in gen_cases]
